@@ -14,17 +14,30 @@ import (
 	"github.com/youchainhq/go-youchain/core/types"
 	"github.com/youchainhq/go-youchain/trie"
 	"github.com/youchainhq/go-youchain/youdb"
-	"golang.org/x/crypto/sha3"
 )
 
-type VerifC19TrieSync struct{ s *trieSync }
-
-func VerifC19NewTrieSync(sched *trie.Sync) *VerifC19TrieSync {
-	return &VerifC19TrieSync{&trieSync{sched: sched, keccak: sha3.NewLegacyKeccak256()}}
+// VerifC19TrieSync feeds single blobs through trieSync.process (and so through
+// processNodeData, whatever its signature is) on a trieSync built by the real
+// constructor; the request carries no items, only the delivered blob.
+type VerifC19TrieSync struct {
+	s *trieSync
+	p *peerConnection
 }
 
-func (v *VerifC19TrieSync) ProcessNodeData(blob []byte) (bool, common.Hash, error) {
-	return v.s.processNodeData(blob)
+func VerifC19NewTrieSync(sched *trie.Sync) *VerifC19TrieSync {
+	d := &Downloader{peers: newPeerSet()}
+	p := newPeerConnection("single", nil, nil)
+	d.peers.peers["single"] = p
+	return &VerifC19TrieSync{newTrieSync(d, types.KindState, nil, sched), p}
+}
+
+// ProcessNodeData returns what process() made of the blob: delivered (0/1), the
+// increments of the duplicate / unexpected counters, and the aborting error.
+func (v *VerifC19TrieSync) ProcessNodeData(blob []byte) (int, uint64, uint64, error) {
+	d0, u0 := v.s.d.syncStatsState.duplicate, v.s.d.syncStatsState.unexpected
+	req := &trieReq{peer: v.p, response: [][]byte{blob}, tasks: make(map[common.Hash]*trieTask)}
+	n, err := v.s.process(req)
+	return n, v.s.d.syncStatsState.duplicate - d0, v.s.d.syncStatsState.unexpected - u0, err
 }
 
 // ---- trieSync request bookkeeping (fillTasks / process / commit) -------------
